@@ -147,3 +147,21 @@ func (d *Docs) Add(root *doc.Node, hasNS bool) int {
 }
 
 func DocID(i int) string { return fmt.Sprintf("d%d", i) }
+
+// RegularTree: a complete tree, every inner element named name with `branch` children, `depth`
+// levels below the top element (the leaves are named name as well)
+func RegularTree(branch, depth int, name string) *doc.Node {
+	root := &doc.Node{Type: xpath.RootNode}
+	var build func(level int) *doc.Node
+	build = func(level int) *doc.Node {
+		n := &doc.Node{Type: xpath.ElementNode, Name: name}
+		if level < depth {
+			for i := 0; i < branch; i++ {
+				n.Add(build(level + 1))
+			}
+		}
+		return n
+	}
+	root.Add(build(0))
+	return root
+}
